@@ -197,7 +197,12 @@ def run_topology(sc):
                 spec = {'id': nid, 'op': 'sink', 'up': [u], 'kind': 'sync'}
                 ctx.spec[nid] = spec
                 f = ctx.sync_fn(nid, lambda x: None, kind='sink')
-                s = anynode[u]().sink(f)
+                if op.get('detached'):
+                    # the consumer is built on its own and attached afterwards: a sink like any other from then on
+                    s = streamz.sinks.sink(None, f)
+                    anynode[u]().connect(s)
+                else:
+                    s = anynode[u]().sink(f)
                 ctx.instrument(nid, s)
                 ctx.keep[:] = []
                 ctx.nodes = {}
@@ -496,6 +501,8 @@ def generate(prop, rng, seed, index, tier):
             cands = [i for i in live if opname[i] != 'sink']
             u = rng.choice(cands)
             ops.append({'op': 'add_sink', 'u': u, 'id': next_id})
+            if rng.random() < 0.4:
+                ops[-1]['detached'] = True
             opname[next_id] = 'sink'
             ups[next_id] = [u]
             kids[next_id] = []
